@@ -227,3 +227,21 @@ Definition tpl_ci8_image_m (m : mode) (pal_data img_data : bytes) (width height 
   seqd <- block_to_sequential_m m img_data aw ah 8 4 ;;
   cropped <- crop_m m seqd aw width height ;;
   px <- ci8_lookup_m m cropped pal ;; Ok (flatten px).
+
+(* ---------------- ctpk::read: (bpp * w as f32 * h as f32) as usize ---------------- *)
+(* round to nearest, ties to even, to 24 significant bits: the value of a non-negative integer after a binary32 operation *)
+Definition round24 (p : N) : N :=
+  if p <? 2 ^ 24 then p else
+  let e := N.log2 p - 23 in
+  let q := p / 2 ^ e in let r := p mod 2 ^ e in let half := 2 ^ (e - 1) in
+  (if (half <? r) || ((r =? half) && N.odd q) then q + 1 else q) * 2 ^ e.
+
+(* bpp * w is exact for u16 w (at most 18 bits); the second product is rounded; bpp2 = 2 * bpp keeps everything integral
+   (scaling by two is exact in binary floating point); `as usize` truncates *)
+Definition payload_size_f32 (fmt w h : N) : N := round24 (bpp2 fmt * w * h) / 2.
+
+
+(* what ctpk::read does with a zero-filled payload of len bytes for the formats whose walk reads nothing (L4 = 10, A4 = 11):
+   read_exact of payload_size_f32 bytes (Err when the file is shorter), then 4*w*h output bytes *)
+Definition ctpk_probe (fmt w h len : N) : option N :=
+  if len <? payload_size_f32 fmt w h then None else Some (4 * (w * h)).
